@@ -23,6 +23,12 @@ Definition probe_call (name : str) (args : list pexpr) :=
   let r := ROp name (map (fun e => normalize (resolve e)) args) in
   [probe_call_dialect d_sqlite r; probe_call_dialect d_generic r].
 
+(* an RQ expression given directly (literals no source text denotes, e.g. Literal::Integer(i64::MIN)): folded bottom-up
+   as the resolver does, normalised, emitted *)
+Definition probe_rq (r : rexpr) :=
+  let r' := normalize (seval r) in
+  map (fun d => option_map (fun n : node => render_top (fst (fst n), snd (fst n))) (translate d (rsize r') r')) [d_sqlite; d_generic].
+
 (* `derive d = e1 | select {v = e2}`: both expressions are resolved (and folded) on their own; the SQL
    generator then inlines the definition of column d (index 3) where it is referenced.  Only for
    definitions that resolve to a numeric literal or to an operator node (a null / boolean literal behind
